@@ -731,6 +731,10 @@ class Probe:
             if m in ("is_ok", "is_err") and not e["args"]:
                 return (recv[0] == "ok") == (m == "is_ok")
             raise NoEval("method %s on a Result" % m)
+        if (recv is None or (isinstance(recv, tuple) and recv and recv[0] == "some")) and m in ("ok_or", "ok_or_else") and len(e["args"]) == 1:
+            if recv is not None:
+                return ("ok", recv[1])
+            return ("err", self.ev(e["args"][0], env) if m == "ok_or" else self.apply(self.ev(e["args"][0], env), []))
         if (recv is None or (isinstance(recv, tuple) and recv and recv[0] == "some")) and m in ("map", "and_then", "unwrap_or", "unwrap_or_else", "or", "or_else", "take", "filter"):
             if m == "map":
                 return None if recv is None else ("some", self.apply(self.ev(e["args"][0], env), [recv[1]]))
